@@ -235,7 +235,8 @@ theorem startsWith2 {tok : Str} {a b : Char} (h : Str.startsWith tok [a, b] = tr
 theorem pyInt10_upperX (r : Str) : pyInt 10 ('0' :: 'X' :: r) = .error .valueError := by
   have h0 : isWs '0' = false := by decide
   have hX : isWs 'X' = false := by decide
-  simp [pyInt, List.dropWhile, h0, hX, signed, parseDigits, digVal, Str.hexVal, goDigits]
+  have hu : uniDec 88 = none := by decide
+  simp [pyInt, List.dropWhile, h0, hX, signed, parseDigits, digVal, Str.hexVal, goDigits, hu]
 
 theorem ite_some_none {c : Prop} [Decidable c] {a b : Nat} (h : (if c then some a else none) = some b) : b = a := by
   split at h <;> simp at h
